@@ -292,13 +292,25 @@ CHECKS = {
                  "and TTL drawn independently) and with an explicit TTL, get, remove, clear, and clock advances aimed at each pending TTL (999 ms / 1 ms before, exactly on, 1 ms / "
                  "999 ms after) or random; the purge thread runs on the simulated clock and is interleaved by the seeded scheduler; after EVERY step all 36 questions are probed and "
                  "compared with a reference map holding the absolute expiry at the same frozen instant: a hit needs a live entry for exactly that question (c19-wrong-question, "
-                 "c19-served-after-ttl) and must return the last answer stored for it (c19-wrong-answer); a miss before expiry is counted, not flagged"),
-        "real": ["iora::network::dns::DnsCache", "iora::util::ExpiringCache incl. its purge thread", "std::chrono::steady_clock (reads the simulated CLOCK_MONOTONIC)"],
+                 "c19-served-after-ttl) and must return the last answer stored for it (c19-wrong-answer); a miss before expiry is counted, not flagged. "
+                 "network job: a real DnsClient (cache on, retry budget 0-2, 600 ms / 900 ms timeouts, 1-2 caller threads) resolves 1-4 (6 thorough) questions of type A, AAAA, SRV, "
+                 "NAPTR, MX, TXT, CNAME or PTR against a scripted DNS server (UDP and TCP) on the simulated network with drawn latency, 10 % datagram loss or duplication; each "
+                 "response comes from a structure-aware generator with its own encoder and name compressor (always / never / drawn per name, pointing at any earlier suffix, owner "
+                 "names in another letter case, authority and glue records, data octets >= 0xC0, empty and 8-bit character strings) and one planned variant: well-formed, truncated "
+                 "at a drawn offset, one bit flipped, pointer loop, pointer to itself, pointer beyond the message, forward pointer, answer count exceeding the content, label length "
+                 "above 63, RDLENGTH beyond the message, TC on UDP with the full answer on TCP, silence, NXDOMAIN with SOA; oracle: well-formed => exactly the records encoded "
+                 "(per-type fields, TTLs, owner names, section counts); pointer loops / out-of-range pointers / silence / NXDOMAIN => an error, never a result; every query returns "
+                 "or throws within the time its timeouts and retry policy allow; with TTLs of 1-3 s a repeated query after the TTL must reach the server again"),
+        "real": ["iora::network::dns::DnsCache", "iora::util::ExpiringCache incl. its purge thread", "std::chrono::steady_clock (reads the simulated CLOCK_MONOTONIC)",
+                 "network job: iora::network::DnsClient, dns::DnsResolver, dns::DnsTransport (UDP + TCP fallback, retry timers), dns::DnsMessage::parse, UdpEngine / TcpEngine"],
         "stub": COMMON_STUB,
         "assumptions": ["simulated time does not advance inside a cache operation (step cost 0), so store and model see the same instant",
-                        "names that differ only by a trailing dot are not used (the property leaves open whether they are the same question)"],
+                        "names that differ only by a trailing dot are not used (the property leaves open whether they are the same question)",
+                        "the decode clauses are pure functions of the message; they are decided here only as far as the network job's generator and fault plan reach them (messages arrive as datagrams / TCP segments through the real transport) - no separate exhaustive byte-level mutation campaign",
+                        "truncated or bit-flipped responses may decode to something or fail: only termination in time and memory safety (ASan/UBSan) are judged for them"],
         "jobs": [
             {"harness": "c19_dnscache", "flavour": "asan", "runs": {"quick": 12000, "thorough": 1500000}, "wall": {"quick": 25, "thorough": 1500}},
+            {"harness": "c19_dnsnet", "flavour": "asan", "runs": {"quick": 12000, "thorough": 1200000}, "wall": {"quick": 45, "thorough": 2400}, "seed_off": 5},
         ],
     },
     "C20": {
